@@ -11,14 +11,15 @@ a = subprocess.run(['git','-C','/repo','apply',patch],capture_output=True,text=T
 if a.returncode != 0:
     print("PATCH DOES NOT APPLY:\n"+a.stderr); sys.exit(2)
 tmp = tempfile.mkdtemp(prefix='seedcheck-')
-shutil.copy('/verif/known_findings.json', tmp)
 try:
     b = subprocess.run(['go','build','./...'],cwd='/repo',env=env,capture_output=True,text=True)
     if b.returncode != 0:
         print("DOES NOT COMPILE:\n"+b.stderr[:800]); sys.exit(2)
     fired = {}
     for p in props:
-        r = subprocess.run(['/verif/bin/ibcheck','-prop',p,'-verif',tmp],capture_output=True,text=True)
+        r = subprocess.run(['/verif/bin/ibcheck','-prop',p,'-verif','/verif','-out',tmp],capture_output=True,text=True)
+        if not os.path.isdir(os.path.join(tmp,'evidence')):
+            print('CHECKER PRODUCED NO EVIDENCE:\n'+r.stdout[-500:]+r.stderr[-500:]); continue
         for f in sorted(os.listdir(os.path.join(tmp,'evidence'))):
             if f.endswith('.violations.json'):
                 v = json.load(open(os.path.join(tmp,'evidence',f)))
